@@ -110,6 +110,9 @@ impl Property for Escape {
             });
         }
         spec.args.push(fin.clone());
+        if t.chance(1, 4) {
+            spec.settings.positionals_declared_backwards = true;
+        }
         if os {
             // tail tokens fill unfilled earlier positionals first
             for a in spec.args.iter_mut().filter(|a| a.is_positional()) {
